@@ -7,10 +7,12 @@ pub use serde_json::Value;
 
 #[derive(Serialize, Deserialize, Schema, Default, Debug, Clone)]
 pub struct Inner {
-    pub in_a: String,
+    // two required fields declared in non-alphabetical order, an optional one between them
+    pub in_z: String,
     pub in_b: Option<i32>,
+    pub in_a: String,
 }
-pub fn inner(some: bool) -> Inner { Inner { in_a: "s".to_string(), in_b: if some { Some(7) } else { None } } }
+pub fn inner(some: bool) -> Inner { Inner { in_z: "s".to_string(), in_b: if some { Some(7) } else { None }, in_a: "s".to_string() } }
 pub fn s() -> String { "s".to_string() }
 pub fn ser<T: Serialize>(t: &T) -> Result<Value, String> { serde_json::to_value(t).map_err(|e| e.to_string()) }
 pub fn schema_json<T: Schema>() -> Value {
